@@ -1541,7 +1541,7 @@ def add_invariant_checks(cls: ClassT) -> None:
             new_func = getattr(cls, "__new__")
             new_wrapper = _decorate_new_with_invariants(new_func)
             if new_wrapper is not new_func:
-                setattr(cls, "__new__", new_wrapper)
+                setattr(cls, "__new__", staticmethod(new_wrapper))
         else:
             wrapper = _decorate_with_invariants(func=init_func, is_init=True)
             if wrapper is not init_func:
